@@ -814,6 +814,119 @@ def fill_correspondence(rep, r, tier):
                                       'model %s vs implementation %s' % (json.dumps(a)[:300], json.dumps(got)[:300])))
 
 
+def add_correspondence(rep, r, tier):
+    """sequences of add_dcm calls (files of a series in random order, interleaved with intruders: no
+    pixels, other matrix size, spacing / orientation near and far, second file for an occupied cell,
+    duplicate with another TR / phase-encoding direction) vs the Lean state machine `Stk.addAll`:
+    outcome of every call, files held afterwards, sizes of the ordinate / TR / PE sets, reference
+    input."""
+    import dcmstack
+    drv = core.Driver()
+    n = {'quick': 40, 'thorough': 600}[tier]
+    reqs, meta = [], []
+    co = rep.corr.setdefault('stack_add', {'cases': 0, 'agree': 0, 'disagree': 0, 'skipped': 0})
+
+    def micro(xs):
+        return [int(round(float(x) * 1e6)) for x in xs]
+
+    for ci in range(n):
+        ordering = r.choice(['explicit', 'explicit_tv', 'none', 'explicit'])
+        series = G.gen_series(r, tier, S=r.choice([1, 2, 3]), T=r.choice([1, 2]), V=1,
+                              ordering='explicit' if ordering != 'none' else 'none')
+        if ordering == 'none':
+            series['ordering'] = 'none'
+        elif ordering == 'explicit_tv':
+            series['ordering'] = 'explicit_tv'       # vector element absent from the files: ordinate None
+        kw = G.orders_of(series)
+        st = dcmstack.DicomStack(**kw)
+        explicit = bool(kw)
+        plan = [('file', f, {}) for f in series['files']]
+        r.shuffle(plan)
+        nid = 900
+        for _ in range(r.randint(1, 5)):
+            f = r.choice(series['files'])
+            kind = r.choice(['rows', 'cols', 'spacing_far', 'spacing_near', 'orient_far', 'orient_near',
+                             'no_pixels', 'dup', 'dup_other_tr'])
+            over = {}
+            if kind == 'rows':
+                over = dict(rows=series['rows'] + 1, pixels=np.zeros((series['rows'] + 1) * series['cols']))
+            elif kind == 'cols':
+                over = dict(cols=series['cols'] + 1, pixels=np.zeros(series['rows'] * (series['cols'] + 1)))
+            elif kind == 'spacing_far':
+                over = dict(spacing=[series['spacing'][0] + 1e-3, series['spacing'][1]])
+            elif kind == 'spacing_near':
+                over = dict(spacing=[series['spacing'][0] + 1e-5, series['spacing'][1]])
+            elif kind in ('orient_far', 'orient_near'):
+                # in-plane rotation (a valid pair of direction cosines) by 1e-2 / 1e-5 rad
+                ang = 1e-2 if kind == 'orient_far' else 1e-5
+                rw, cl = np.array(series['iop'][:3]), np.array(series['iop'][3:])
+                over = dict(iop=list(np.cos(ang) * rw + np.sin(ang) * cl) + list(-np.sin(ang) * rw + np.cos(ang) * cl))
+            elif kind == 'no_pixels':
+                over = dict(with_pixels=False)
+            elif kind == 'dup_other_tr':
+                over = dict(meta=dict(f['meta'], RepetitionTime=1234.5, InPlanePhaseEncodingDirection='COL'))
+            nid += 1
+            plan.insert(r.randrange(len(plan) + 1), (kind, dict(f, id=nid, base=7), over))
+        cands, outs = [], []
+        ok = True
+        for kind, f, over in plan:
+            try:
+                ds = G.dataset_of(series, f, **over)
+            except Exception:
+                ok = False
+                break
+            from dcmstack.extract import default_extractor
+            from nibabel.nicom.dicomwrappers import wrapper_from_data
+            with warnings.catch_warnings():
+                warnings.simplefilter('ignore')
+                m = default_extractor(ds)
+                is_img = dcmstack.is_image(ds)
+                pos = wrapper_from_data(ds).slice_indicator if is_img else 0.0
+                tv = kw['time_order'] if 'time_order' in kw else None
+                vv = kw['vector_order'] if 'vector_order' in kw else None
+                tval = m.get(tv) if tv else None
+                vval = m.get(vv) if vv else None
+                try:
+                    st.add_dcm(ds)
+                    outs.append('ok')
+                except Exception as e:
+                    outs.append(type(e).__name__)
+            pe = m.get('InPlanePhaseEncodingDirection')
+            tr = m.get('RepetitionTime')
+            cands.append({'img': bool(is_img), 'rows': int(ds.Rows), 'cols': int(ds.Columns),
+                          'geom': micro(list(ds.PixelSpacing) + list(ds.ImageOrientationPatient)),
+                          'v': lattice(vval), 't': lattice(tval), 'p': float(pos), 'id': f['id'],
+                          'tr': None if tr is None else lattice(tr), 'pe': None if pe is None else {'ROW': 0, 'COL': 1}.get(pe, 2)})
+        if not ok:
+            co['skipped'] += 1
+            continue
+        # slice positions are compared for identity by the collision check: send their ranks
+        ranks = {v: i for i, v in enumerate(sorted({c['p'] for c in cands}))}
+        for c in cands:
+            c['p'] = ranks[c['p']]
+        ids = []
+        for w, tup in st._files_info:
+            ids.append(int(str(w.get_meta('SOPInstanceUID')).split('.')[-1]))
+        got = {'outs': outs, 'files': ids, 'ntr': len(st._repetition_times), 'npe': len(st._phase_enc_dirs),
+               'ntuples': len(st._sorting_tuples),
+               'ref': None if st._ref_input is None else int(str(st._ref_input.get_meta('SOPInstanceUID')).split('.')[-1])}
+        reqs.append({'op': 'stack_add', 'explicit': explicit, 'cands': cands})
+        meta.append((series, [k for k, _, _ in plan] + [json.dumps(cands)], got))
+        rep.evaluations += 1
+        rep.count('add_corr/' + ordering)
+        for k, _, _ in plan:
+            rep.count('add_corr/kind/' + k)
+        rep.nontriv(['add_corr', ci, [k for k, _, _ in plan]])
+    for a, (series, kinds, got) in zip(drv.ask(reqs), meta):
+        co['cases'] += 1
+        if a == got:
+            co['agree'] += 1
+        else:
+            co['disagree'] += 1
+            rep.disagreements.append(('stack_add', 'stack:add', {'series': {k: v for k, v in series.items() if k != 'files'}, 'plan': kinds},
+                                      'model %s vs implementation %s (plan %s)' % (json.dumps(a)[:300], json.dumps(got)[:300], kinds)))
+
+
 def guess_correspondence(rep, r, tier):
     """get_shape without ordering keys: which key of sort_guesses is picked, acceptance and dims --
     model (Stk.guessShape) vs implementation, on grids, sub-multisets and decoy keys"""
@@ -990,9 +1103,12 @@ THEOREMS = {
             'C11.accept_spacing', 'C11.refuse_empty', 'C11.refuse_not_factoring', 'C11.refuse_spacing',
             'C11.refuse_vector_count', 'C11.refuse_bad_volume', 'C11.f13_accepted', 'C11.f13_mixes_time',
             'C11.accept_does_not_imply_one_time', 'C11.accept_complete', 'C11.accept_complete_order',
-            'C11.guess_ok_accepts', 'C11.guess_first', 'C11.guess_refuses', 'C11.guess_single_volume'],
+            'C11.guess_ok_accepts', 'C11.guess_first', 'C11.guess_refuses', 'C11.guess_single_volume',
+            'C11.add_ok_iff', 'C11.add_refuses_nonimage', 'C11.add_refuses_incongruent', 'C11.add_refuses_collision',
+            'C11.add_refused_unchanged', 'C11.add_files_are_accepted', 'C11.add_accepted_congruent',
+            'C11.add_cells_distinct'],
     'C12': ['C12.sort_perm_invariant', 'C12.chkSort_perm_invariant', 'C12.step_spec', 'C12.run_inv',
-            'C12.history_independent', 'C12.reverse_involutive'],
+            'C12.history_independent', 'C12.reverse_involutive', 'C12.add_order_and_history_independent'],
     'C20': ['C20.tm_colons_ignored', 'C20.tm_same_digits', 'C20.tm_instances', 'C20.tm_malformed',
             'C20.tm_two_digits', 'C20.tm_four_digits', 'C20.tm_six_plus', 'C20.time_fns_identical', 'C20.dim_info_axes',
             'C20.slice_times_follow_data', 'C20.reversal_index'],
@@ -1132,7 +1248,9 @@ def main(pid, tier):
         grid_round(rep, r, tier)
         shape_correspondence(rep, r, tier)
         guess_correspondence(rep, r, tier)
+        add_correspondence(rep, r, tier)
     if pid == 'C12':
+        add_correspondence(rep, r, tier)
         hashseed_round(rep, tier)
         history_round(rep, r, tier)
         history_correspondence(rep, r, tier)
